@@ -181,7 +181,7 @@ PLANS = [["eval"], ["eval", "edit", "eval"], ["eval2"]]
 
 
 def scenario_shapes() -> List[Shape]:
-    S = [s for s in shp.core_shapes() if s.name in ("chain", "nest", "args")]
+    S = [s for s in shp.core_shapes() if s.name in ("chain", "nest", "args")] + [shp.single_shape()]
     return S
 
 
@@ -202,7 +202,9 @@ def run_c06(tier: str) -> int:
             continue    # re-keep scenarios: edits that change what is stored
         items.append((byname[h["shape"]], h["hist"]))
     if tier == "quick":
-        items = items[:: max(1, len(items) // 24)]
+        keep_all = [x for x in items if x[0].name == "single"]
+        rest = [x for x in items if x[0].name != "single"]
+        items = keep_all + rest[:: max(1, len(rest) // 22)]
     base = common.sub_scratch("crash")
     kinds = ["local"] if tier == "quick" else ["local", "local+lru"]
     tasks = []
@@ -215,6 +217,7 @@ def run_c06(tier: str) -> int:
     distinct = set()
     traces = []
     algos = set()
+    conf: Dict[str, Any] = {}
     for (t, out) in zip(tasks, outs):
         if out["fatal"]:
             raise MachineryError("crash explorer failed on %s: %s" % (t[1]["name"], out["fatal"]))
@@ -222,6 +225,14 @@ def run_c06(tier: str) -> int:
             raise MachineryError("victim without crash does not return the expected value (%s)" % t[1]["name"])
         traces += out["fs_traces"]
         algos.add(fsmodel.measure_algo(out["trace"]))
+        # conformance of the real call sequence with the algorithm model, on the two scenarios that
+        # have an exact counterpart in LocalStoreFS
+        evs = [r for r in t[2] if r["op"] == "eval"]
+        eds = [r for r in t[2] if r["op"] == "edit"]
+        if t[3] == "local" and t[1]["name"] == "nest" and len(evs) == 1 and evs[0]["style"] == "eval" and "conform_nested" not in conf:
+            conf["conform_nested"] = fsmodel.conformance(out["trace"], "conform_nested", "cn")
+        if t[3] == "local" and t[1]["name"] == "single" and len(evs) == 2 and eds and eds[-1]["kind"] == "var" and "conform_rekeep" not in conf:
+            conf["conform_rekeep"] = fsmodel.conformance(out["trace"], "conform_rekeep", "cr")
         scen = "re-keep" if any(r["op"] == "edit" for r in t[2]) else "first-keep"
         for pt in out["points"]:
             npoints += 1
@@ -238,8 +249,13 @@ def run_c06(tier: str) -> int:
     rep.cov["traces_validated_against_impl"] = npoints + ntr
     rep.cov["crash_points_executed"] = npoints
     rep.cov["impl_algo"] = sorted(algos)
-    rep.cov["impl_spec_conformant"] = algos == {"atomic"}
-    if algos != {"atomic"}:
+    rep.cov["model_conformance"] = conf
+    if len(conf) < 2:
+        rep.finish()
+        raise MachineryError("conformance scenarios were not exercised: %s" % sorted(conf))
+    conformant = all(c["algo"] == "atomic" for c in conf.values())
+    rep.cov["impl_spec_conformant"] = conformant
+    if not conformant:
         rep.notes.append("the working tree does not follow the 'atomic' write protocol: the design-level TLC result for "
                          "'atomic' does not transfer; the verdict rests on the real executions alone")
     rep.cov["fs_traces_validated_by_tlc"] = ntr
